@@ -1065,6 +1065,13 @@ class Server:
         del connection.logged
         del connection.rename_from
         state, user, info = await self.user_manager.get_user(rest)
+        while connection.future.user.done():
+            # another USER was answered while this one was waiting for the
+            # user manager: that login is superseded like any earlier one
+            superseded = connection.user
+            del connection.user
+            del connection.logged
+            await self.user_manager.notify_logout(superseded)
         if state == AbstractUserManager.GetUserResponse.OK:
             code = "230"
             connection.logged = True
